@@ -1,7 +1,11 @@
 (* Property C11 -- freed memory is given back: OS regions unmapped, footprint does not creep.
    Only statements closed by `exact <lemma>`, Print Assumptions, and Examples.
-   Models: Model/Os.v (ghost kernel + oracle), Model/Purge.v (arena purge).  The whole-workload fixpoint
-   (`workload_fixpoint`) needs the segment layer and is stated by the coordinator (Properties/C11 is extended there).
+   Models: Model/Os.v (ghost kernel + oracle), Model/Purge.v (arena purge): the OS layer (every region obtained from
+   the OS is unmapped again with the recorded base and size), the thread-metadata cache and the arena purge of a forced
+   collect.  The whole-workload clause ("everything freed + forced collect: segments, arena blocks and OS-backed
+   regions are given back; repeating the workload does not grow") needs the segment layer and is in
+   Properties/C11back.v, on Model/Commit.v: C11_all_freed_gives_back, C11_workload_fixpoint, C11_workload_repeat,
+   C11_forced_collect_purges (the Commit.v analogue of C11_forced_collect_purges_arena below).
    k_wf: pages outside every mapping are in the default state; k_eq k k': same list of mappings, same page states;
    munmaps_ok: no munmap in the log was refused (refusals are C07). *)
 From Coq Require Import NArith ZArith List Bool.
